@@ -2,6 +2,7 @@
 #![allow(dead_code)]
 mod engine;
 mod explore;
+mod iso;
 mod props;
 mod refmodel;
 mod subject;
@@ -57,17 +58,46 @@ fn main() {
                 eprintln!("MACHINERY: unknown property {}", id);
                 std::process::exit(2);
             };
-            let mut run = Run::new(&id, tier, seed);
-            // a panic in the harness itself is a machinery failure, never a verdict
-            let r = std::panic::catch_unwind(std::panic::AssertUnwindSafe(|| {
-                (p.1)(&mut run);
-            }));
-            if r.is_err() {
-                eprintln!("MACHINERY: the harness panicked while checking {}", id);
-                std::process::exit(2);
+            let exec = |threads: Option<usize>| -> Run {
+                let mut run = Run::new(&id, tier, seed);
+                if let Some(t) = threads {
+                    run.threads = t;
+                }
+                // a panic in the harness itself is a machinery failure, never a verdict
+                let r = std::panic::catch_unwind(std::panic::AssertUnwindSafe(|| {
+                    // process-wide state first, in fresh single-threaded children; if state leaks
+                    // between contexts the multi-threaded sub-spaces would not be functions of their cases
+                    if !iso::phase(&mut run) {
+                        (p.1)(&mut run);
+                    }
+                }));
+                if r.is_err() {
+                    eprintln!("MACHINERY: the harness panicked while checking {}", id);
+                    std::process::exit(2);
+                }
+                run
+            };
+            let mut run = exec(None);
+            if run.threads > 1 && !engine::some_violation_replays(&mut run, p.2) {
+                // differing cases none of which replays: the outcome depended on something outside the
+                // case (process-wide state raced by the worker threads).  Decide on one thread.
+                eprintln!(
+                    "note: {} differing case(s) under {} threads, none replays identically; re-running {} on a single thread",
+                    run.acc.viol_count, run.threads, id
+                );
+                run = exec(Some(1));
+                run.assume("the multi-threaded run produced differing cases that did not replay; this evidence is from the single-threaded re-run");
             }
             let code = engine::finish(run, p.2);
             std::process::exit(code);
+        }
+        "iso" => {
+            if args.len() < 5 {
+                usage();
+            }
+            let lo: usize = args[3].parse().unwrap_or(0);
+            let hi: usize = args[4].parse().unwrap_or(0);
+            std::process::exit(iso::child(&args[2].to_uppercase(), lo, hi));
         }
         "replay" => {
             if args.len() < 3 {
@@ -97,7 +127,8 @@ pub fn replay_text(txt: &str) -> i32 {
         eprintln!("MACHINERY: replay file names unknown property {:?}", prop);
         return 2;
     };
-    match (p.2)(case) {
+    let replayer: engine::Replayer = if case["check"].as_str() == Some("iso") { iso::replay } else { p.2 };
+    match replayer(case) {
         Ok(out) => {
             println!("observed: {}", out.observed);
             if out.violations.is_empty() {
